@@ -130,7 +130,7 @@ def refusal_before_write(F, R):
         conds = []
         if pops and push:
             conds = [sym_nstr(sym(f, f.blocks[b]['t'][1])) for (b, tgt) in lib.guard_switches(f, pops[0])]
-            full = [(b, tgt) for (b, tgt) in lib.guard_switches(f, pops[0]) if 'len' in sym_nstr(sym(f, f.blocks[b]['t'][1])) and 'capacity' in sym_nstr(sym(f, f.blocks[b]['t'][1]))]
+            full = [(b, tgt) for (b, tgt) in lib.guard_switches(f, pops[0]) if ('len' in sym_nstr(sym(f, f.blocks[b]['t'][1])) and 'capacity' in sym_nstr(sym(f, f.blocks[b]['t'][1]))) or re.search(r'::is_full\(|\bis_full\(', sym_nstr(sym(f, f.blocks[b]['t'][1])))]
             if full:
                 b, tgt = full[0]
                 # on the `full` arm every path to the push passes the pop
